@@ -23,13 +23,14 @@ def verdict(res, why):
 
 out = []
 out.append('## 12. Which checks catch which changes (self-validation by independently seeded defects)\n')
-out.append('Nine rounds (A–I) of changes to samber/ro were written by fresh sub-agents that saw only the text of one property and a scratch worktree of the '
+out.append('Ten rounds (A–J; J with ten properties) of changes to samber/ro were written by fresh sub-agents that saw only the text of one property and a scratch worktree of the '
            'library - nothing of /verif - and were asked for a realistic change (refactor, optimisation, tidied lock scope, parameter corner, second use, two cooperating sites) that '
            'compiles, passes the pinned test suite and breaks the property, with a demonstration that fails with and passes without it. Every change kept here was confirmed by '
            '`tools/confirm_seeds.py` (applies, builds, baseline passes, demonstration fails with / passes without) and is stored as `seeded/<Cxx>-<round>/` (patch.diff, demonstration, '
            'meta.json). `tools/seed_matrix.py` applies each one to a scratch worktree (`VERIF_REPO`), runs the quick check of the seed\'s own property and records exit code and VIOLATION '
-           'lines; nothing is ever committed to /repo. The table below is the run at the commit named in `seeded/MATRIX.md` (merged from the shard files), two shards in parallel, '
-           'with a `vp check` of the unchanged tree running next to them as the control for load-induced alarms.\n')
+           'lines; nothing is ever committed to /repo. The table below merges three runs: the two shards `MATRIX-0.md` / `MATRIX-1.md` (all 180 seeds of rounds A-I, in parallel, at commit 39631e3, next to a thorough-tier sweep '
+           'and ten seeding agents) and `MATRIX-2.md` (at the commit named in `seeded/MATRIX.md`: the seeds the first run missed or could not apply - seven patches had to be re-based '
+           'after the unicast repair 5f819fc - and the ten seeds of round J); a later row replaces an earlier one.\n')
 cnt = {}
 for sd in seeds:
     prop = sd.split('-')[0]
